@@ -122,4 +122,13 @@ pub broadcast proof fn lemma_hits_unset_at(c: Chain, key: ExprRef, k: ExprRef)
 {
 }
 
-pub broadcast group group_reach { lemma_reach_refl, lemma_reach_push, lemma_reach_pop, lemma_reach_next_some, lemma_hits_unset_self, lemma_hits_unset_at }
+/// one link
+pub broadcast proof fn lemma_reach_one(c: Chain, a: ExprRef, b: ExprRef)
+    requires c(a) == Some(b),
+    ensures #[trigger] reach(c, a, b),
+{
+    assert(reach_n(c, b, b, 0));
+    assert(reach_n(c, a, b, 1));
+}
+
+pub broadcast group group_reach { lemma_reach_refl, lemma_reach_one, lemma_reach_push, lemma_reach_pop, lemma_reach_next_some, lemma_hits_unset_self, lemma_hits_unset_at }
